@@ -130,7 +130,7 @@ fn front_end(entry: Entry, text: &str, with_ffi: bool, notes: &mut Vec<(String, 
                         match mcx::catch(|| e.to_string()) {
                             Ok(s) => {
                                 let first = s.lines().next().unwrap_or("");
-                                let cls: String = first.chars().filter(|c| !c.is_ascii_digit()).take(48).collect();
+                                let cls: String = first.trim_start_matches("error: ").chars().take_while(|c| *c != ':' && *c != '`' && *c != '[').take(48).collect();
                                 r.classes.push(format!("compile-err:{cls}"));
                             }
                             Err(p) => {
@@ -234,7 +234,7 @@ impl TokSpace {
         let mut layout = Vec::new();
         let mut first = 0;
         for len in 0..=max_len {
-            let n = if len <= 2 { 1 } else { k.pow((len - 2) as u32) };
+            let n = if len <= 1 { 1 } else { k.pow((len - 1) as u32) };
             layout.push((len, n, first));
             first += n;
         }
@@ -243,27 +243,20 @@ impl TokSpace {
     fn text_of(&self, u: u64, c: u64) -> Option<String> {
         let k = self.vocab.len() as u64;
         let &(len, _, first) = self.layout.iter().rev().find(|l| u >= l.2)?;
-        let ncases = k.pow(len.min(2) as u32);
+        let ncases = k.pow(len.min(1) as u32);
         if c >= ncases {
             return None;
         }
         let mut idx = Vec::with_capacity(len);
         let mut p = u - first;
-        let mut pre = Vec::new();
-        for _ in 0..len.saturating_sub(2) {
-            pre.push((p % k) as usize);
+        for _ in 0..len.saturating_sub(1) {
+            idx.push((p % k) as usize);
             p /= k;
         }
-        pre.reverse();
-        idx.extend(pre);
-        let mut cc = c;
-        let mut tail = Vec::new();
-        for _ in 0..len.min(2) {
-            tail.push((cc % k) as usize);
-            cc /= k;
+        idx.reverse();
+        if len >= 1 {
+            idx.push(c as usize);
         }
-        tail.reverse();
-        idx.extend(tail);
         let toks: Vec<&str> = idx.iter().map(|i| self.vocab[*i]).collect();
         let body = toks.join(" ");
         Some(if self.template.is_empty() { body } else { self.template.replace('@', &body) })
@@ -271,7 +264,7 @@ impl TokSpace {
     fn cases_of(&self, u: u64) -> u64 {
         let k = self.vocab.len() as u64;
         let len = self.layout.iter().rev().find(|l| u >= l.2).map(|l| l.0).unwrap_or(0);
-        k.pow(len.min(2) as u32)
+        k.pow(len.min(1) as u32)
     }
 }
 
@@ -503,7 +496,9 @@ pub struct DocMutSpace {
     /// (doc, kind 0 del / 1 dup / 2 swap / 3 truncate, chunk)
     units: Vec<(usize, usize, usize)>,
     chunk: usize,
-    trunc_stride_big: usize,
+    /// quick tier: documents above 3000 bytes get every token deletion, duplication / swap of
+    /// every 4th token, and truncation at every line start only
+    reduce_big: bool,
 }
 
 impl DocMutSpace {
@@ -522,13 +517,17 @@ impl DocMutSpace {
                 units.push((i, 3, ch));
             }
         }
-        DocMutSpace { docs, toks, units, chunk, trunc_stride_big: if thorough { 1 } else { usize::MAX } }
+        DocMutSpace { docs, toks, units, chunk, reduce_big: !thorough }
     }
     fn mutate(&self, u: u64, c: u64) -> Option<(String, String)> {
         let (di, kind, ch) = self.units[u as usize];
         let text = &self.docs[di].2;
         let t = &self.toks[di];
         let i = ch * self.chunk + c as usize;
+        let big = self.reduce_big && text.len() > 3000;
+        if big && (kind == 1 || kind == 2) && i % 4 != 0 {
+            return None;
+        }
         match kind {
             0 => {
                 let &(a, b) = t.get(i)?;
@@ -547,8 +546,7 @@ impl DocMutSpace {
                 if i > text.len() || !text.is_char_boundary(i) {
                     return None;
                 }
-                // quick tier: big documents are cut at every token boundary only
-                if text.len() > 3000 && self.trunc_stride_big > 1 && i % self.trunc_stride_big != 0 && !t.iter().any(|&(a, b)| a == i || b == i) {
+                if big && i != text.len() && !(i == 0 || text.as_bytes()[i - 1] == b'\n') {
                     return None;
                 }
                 Some((text[..i].to_string(), format!("truncate to {i} bytes")))
@@ -677,6 +675,7 @@ fn shapes() -> Vec<Shape> {
 pub struct LadderSpace {
     shapes: Vec<Shape>,
     max_depth: usize,
+    case_cap_s: u32,
 }
 
 impl Space for LadderSpace {
@@ -689,10 +688,21 @@ impl Space for LadderSpace {
     fn run_unit(&self, u: u64, only: Option<u64>, skip: &BTreeSet<u64>, acc: &mut Acc) {
         let sh = &self.shapes[u as usize];
         let mut accepted = BTreeSet::new();
+        // a depth that hit the time cap (or killed the process) ends the ladder for this shape:
+        // deeper rungs are not attempted (reported as ladder_rungs_not_attempted)
+        let stop = skip.iter().min().copied().unwrap_or(u64::MAX);
         for d in 1..=self.max_depth as u64 {
-            if only.is_some_and(|o| o != d) || skip.contains(&d) {
+            if only.is_some_and(|o| o != d) {
                 continue;
             }
+            if d >= stop {
+                if d > stop {
+                    acc.count("ladder_rungs_not_attempted", 1);
+                }
+                continue;
+            }
+            // SAFETY: plain syscall (per-rung time budget).
+            unsafe { libc::alarm(self.case_cap_s) };
             let text = (sh.gen)(d as usize);
             run_text("ladder", u, d, sh.entry, &text, false, acc, &mut accepted, &|| json!({"shape": sh.name, "depth": d}));
         }
@@ -725,7 +735,7 @@ pub fn space_by_name(name: &str, args: &Args) -> Box<dyn Space> {
         "tok-type" => Box::new(TokSpace::new("tok-type", Entry::Str, T_TYPE, V_TYPE, if t { 6 } else { 4 })),
         "md" => Box::new(MdSpace::new(if t { 5 } else { 4 }, if t { 5 } else { 4 })),
         "docmut" => Box::new(DocMutSpace::new(t)),
-        "ladder" => Box::new(LadderSpace { shapes: shapes(), max_depth: if t { 200 } else { 64 } }),
+        "ladder" => Box::new(LadderSpace { shapes: shapes(), max_depth: if t { 200 } else { 64 }, case_cap_s: if t { 8 } else { 2 } }),
         n => mcx::machinery_error(&format!("C27: unknown space {n}")),
     }
 }
@@ -743,12 +753,12 @@ pub fn run(args: &Args) {
     let mut rep = Report::new(args, Level::Exploration);
     let mut exhaustive = true;
     let mut sizes = Vec::new();
-    for n in SPACES {
-        let sp = space_by_name(n, args);
-        let t0 = std::time::Instant::now();
-        let (acc, complete) = common::run_space(sp.as_ref(), args, 48);
+    let spaces: Vec<Box<dyn Space>> = SPACES.iter().map(|n| space_by_name(n, args)).collect();
+    let refs: Vec<&dyn Space> = spaces.iter().map(|b| b.as_ref()).collect();
+    let results = common::run_spaces(&refs, args, 32);
+    for ((n, sp), (acc, complete)) in SPACES.iter().zip(spaces.iter()).zip(results) {
         exhaustive &= complete;
-        sizes.push(json!({"space": n, "units": sp.units(), "wall_s": (t0.elapsed().as_secs_f64() * 10.0).round() / 10.0, "evaluations": acc.counters.get("evaluations").copied().unwrap_or(0), "parsed_ok": acc.counters.get("parsed_ok").copied().unwrap_or(0), "compiled_ok": acc.counters.get("compiled_ok").copied().unwrap_or(0)}));
+        sizes.push(json!({"space": n, "units": sp.units(), "child_cpu_wall_s": acc.counters.get("child_wall_ms").copied().unwrap_or(0) / 1000, "evaluations": acc.counters.get("evaluations").copied().unwrap_or(0), "parsed_ok": acc.counters.get("parsed_ok").copied().unwrap_or(0), "compiled_ok": acc.counters.get("compiled_ok").copied().unwrap_or(0)}));
         common::fold(&mut rep, n, acc);
     }
     rep.set("spaces", sizes);
@@ -758,7 +768,7 @@ pub fn run(args: &Args) {
     rep.set(
         "rule",
         format!(
-            "token strings (joined by single spaces) of every length ≤L over per-context vocabularies: bare expression L={} ({} tokens, parse_expression), top level L={} ({} tokens), expression / statement-in-function / -action / -policy / -finish templates L={} ({} / {} tokens), type position L={} ({} tokens); Markdown documents of ≤{} lines over {} line kinds (with and without trailing newline; quick: 4-line documents only with); every policy document under crates/ (*.md with front matter, *.policy): unmodified, every token deleted / duplicated / swapped with its successor, every byte truncation (quick: documents >3000 bytes at token boundaries only); {} nesting shapes at every depth 1..={} on an {} MiB main-thread stack. Every AST returned by the parser is compiled (debug on/off; documents also with the real FFI schemas and stub_ffi). non-trivial = distinct texts accepted by the grammar (reached the AST builder / compiler)",
+            "token strings (joined by single spaces) of every length ≤L over per-context vocabularies: bare expression L={} ({} tokens, parse_expression), top level L={} ({} tokens), expression / statement-in-function / -action / -policy / -finish templates L={} ({} / {} tokens), type position L={} ({} tokens); Markdown documents of ≤{} lines over {} line kinds (with and without trailing newline; quick: 4-line documents only with); every policy document under crates/ (*.md with front matter, *.policy): unmodified, every token deleted / duplicated / swapped with its successor, every byte truncation (quick: documents >3000 bytes get every token deletion, duplication/swap of every 4th token and truncation at line starts); {} nesting shapes at every depth 1..={} on an {} MiB main-thread stack. Every AST returned by the parser is compiled (debug on/off; documents also with the real FFI schemas and stub_ffi). non-trivial = distinct texts accepted by the grammar (reached the AST builder / compiler)",
             if t { 5 } else { 4 },
             V_EXPR.len(),
             if t { 5 } else { 4 },
